@@ -624,6 +624,19 @@ var linearCalls = map[string]bool{"strings.Split": true, "strings.SplitN": true,
 	"strings.Replace": true, "strings.Join": true, "strings.Fields": true, "strings.Map": true, "strings.TrimFunc": true, "strings.Count": true, "newInputString": true,
 	"bytes.Join": true, "bytes.Repeat": true, "utf8.RuneCountInString": true, "fmt.Sprintf": true, "fmt.Sprint": true}
 
+func rootOfSlice(e ast.Expr) ast.Expr {
+	for {
+		switch x := e.(type) {
+		case *ast.SliceExpr:
+			e = x.X
+		case *ast.ParenExpr:
+			e = x.X
+		default:
+			return e
+		}
+	}
+}
+
 func isStringType(t types.Type) bool {
 	if t == nil {
 		return false
@@ -655,6 +668,48 @@ func costSitesTyped(p *pkgFiles, info *types.Info) []string {
 		}
 		return nil
 	}
+	// local variables that only ever hold a slice of constant size: `x := make([]T, <constant>)` or a composite literal,
+	// and never assigned again
+	constSized := map[types.Object]bool{}
+	assignedTwice := map[types.Object]bool{}
+	p.funcs(func(file string, fd *ast.FuncDecl) {
+		ast.Inspect(fd.Body, func(n ast.Node) bool {
+			as, ok := n.(*ast.AssignStmt)
+			if !ok || len(as.Lhs) != len(as.Rhs) {
+				return true
+			}
+			for i, l := range as.Lhs {
+				id, ok := l.(*ast.Ident)
+				if !ok {
+					continue
+				}
+				if as.Tok != token.DEFINE {
+					if o := info.Uses[id]; o != nil {
+						assignedTwice[o] = true
+					}
+					continue
+				}
+				o := info.Defs[id]
+				if o == nil {
+					continue
+				}
+				switch r := as.Rhs[i].(type) {
+				case *ast.CompositeLit:
+					constSized[o] = true
+				case *ast.CallExpr:
+					if f, ok := r.Fun.(*ast.Ident); ok && f.Name == "make" && len(r.Args) == 2 {
+						if tv, ok := info.Types[r.Args[1]]; ok && tv.Value != nil {
+							constSized[o] = true
+						}
+					}
+				}
+			}
+			return true
+		})
+	})
+	for o := range assignedTwice {
+		delete(constSized, o)
+	}
 	var scan func(fn string, n ast.Node, depth int, follow bool)
 	var scanTop func(fn string, n ast.Node)
 	visiting := map[string]bool{}
@@ -675,7 +730,26 @@ func costSitesTyped(p *pkgFiles, info *types.Info) []string {
 				from, to := typeOf(x.Args[0]), tv.Type
 				_, fromSlice := from.Underlying().(*types.Slice)
 				_, toSlice := to.Underlying().(*types.Slice)
-				if (isStringType(from) && toSlice) || (fromSlice && isStringType(to)) {
+				// a slice of a fixed-size array (or a composite literal) has a size bounded by the source text itself: not a site
+				bounded := false
+				if id, ok := rootOfSlice(x.Args[0]).(*ast.Ident); ok && constSized[info.Uses[id]] {
+					bounded = true
+				}
+				switch a := x.Args[0].(type) {
+				case *ast.SliceExpr:
+					if at := typeOf(a.X); at != nil {
+						t := at.Underlying()
+						if pt, ok := t.(*types.Pointer); ok {
+							t = pt.Elem().Underlying()
+						}
+						if _, isArr := t.(*types.Array); isArr {
+							bounded = true
+						}
+					}
+				case *ast.CompositeLit:
+					bounded = true
+				}
+				if !bounded && ((isStringType(from) && toSlice) || (fromSlice && isStringType(to))) {
 					add(fn, "copying conversion "+types.TypeString(to, nil)+"("+exprStr(x.Args[0])+")")
 				}
 				return
